@@ -1,8 +1,171 @@
-import HalmosVerif.Model.Calldata
-namespace HalmosVerif.Props.C12
-open HalmosVerif.Model.Calldata
+/-
+C12 — Symbolic calldata is a fully general, well-formed ABI encoding.
 
-theorem placeholder_fit_length (n : Nat) (bs : HalmosVerif.Spec.Abi.Bytes) : (fit n bs).length = n := by
-  simp [fit]; omega
+Objects: `Model.Calldata` (mirror of halmos' `calldata.py`), `Spec.Abi` (the ABI specification: `enc`, `dec`).
+Everything is for all type trees, all names, all candidate configurations, all counter values — no bounds.
+
+* `abi_dec_enc`          — the Spec decoder inverts the Spec encoder (sanity of the reference).
+* `size_field_ok`        — declared size = data length (under every environment): the `ValueError` check of `create`
+                           can never fire (`create_no_size_mismatch`).
+* `leaves_distinct`      — all size and leaf symbols of one encoding have pairwise different creation indices; hence
+                           (`leaves_distinct_names`) pairwise different `(name, uid, counter)` triples whenever the supply
+                           of `(uid, counter)` pairs is injective — the explicit hypothesis.
+* `encode_general`       — every value whose dynamic lengths are among the candidates is an instance of the calldata:
+                           there is an environment giving the size symbols the lengths and the leaf symbols the words,
+                           under which the Spec decoder returns the value; `encode_general_all`: every environment
+                           satisfying the intended assignment does (symbols of unused array slots are irrelevant).
+* `encode_general_zero_fixed_cex` — the guard `noZeroFarr` is necessary: for `(bytes[0] x, uint256 y)` no environment works.
+* `unsupported_rejected` — `fixedMxN`, `ufixedMxN`, `function` (and arrays of them) are rejected by `parse_type`.
+-/
+import HalmosVerif.Lemmas.C12Sat
+import HalmosVerif.Lemmas.C12Parse
+
+namespace HalmosVerif.Props.C12
+open HalmosVerif.Spec.Abi HalmosVerif.Model.Calldata
+
+/-! ### the reference is sane -/
+
+theorem abi_dec_enc (t : Ty) (v : Val) (hv : t.valid = true) (hw : wt t v = true) (hl : (enc t v).length < 2 ^ 256) :
+    dec t (enc t v) = some v := dec_enc t v hv hw hl
+
+example : dec (.tuple [.uint 8, .darr .bytes]) (enc (.tuple [.uint 8, .darr .bytes])
+    (.list [.uint 5, .list [.bytes [1, 2, 3], .bytes []]])) = some (.list [.uint 5, .list [.bytes [1, 2, 3], .bytes []]]) :=
+  dec_enc _ _ (by decide) (by decide) (by decide +kernel)
+
+/-! ### size field -/
+
+theorem size_field_ok (cfg : Cfg) (name : String) (τ : MTy) (k : Nat) (env : Env) :
+    dataLen (encode cfg name τ k).1.data = (encode cfg name τ k).1.size ∧
+    (evalBytes env (encode cfg name τ k).1.data).length = (encode cfg name τ k).1.size := by
+  have h := (encode_inv cfg τ name k).size_ok
+  exact ⟨h, by rw [evalBytes_length]; exact h⟩
+
+/-- the sanity check of `Calldata.create` never raises -/
+theorem create_no_size_mismatch (cfg : Cfg) (sel : Bytes) (inputs : List AbiItem) :
+    ∀ its, create cfg sel inputs ≠ .error .sizeMismatch ∧ (create cfg sel inputs = .ok its → its.head? = some (.raw sel)) := by
+  intro its
+  unfold create
+  split
+  · exact ⟨by simp, by simp⟩
+  · exact ⟨by simp, by intro h; injection h with h; subst h; rfl⟩
+  · rename_i t _ _
+    have h := (encode_inv cfg t "" 0).size_ok
+    simp only [h, bne_self_eq_false, Bool.false_eq_true, ↓reduceIte]
+    exact ⟨by simp, by intro h; injection h with h; subst h; rfl⟩
+
+example : dataLen (encode ⟨[], [0, 2], [0, 65]⟩ "" (.tuple "" [.base "a" "uint8", .darr "b" (.base "" "bytes")]) 0).1.data = 416 := by
+  decide
+
+/-! ### symbols are pairwise distinct -/
+
+theorem leaves_distinct (cfg : Cfg) (name : String) (τ : MTy) (k : Nat) :
+    ((syms (encode cfg name τ k).1.data).map (·.idx)).Nodup ∧
+    ∀ id ∈ syms (encode cfg name τ k).1.data, k ≤ id.idx ∧ id.idx < (encode cfg name τ k).2 :=
+  ⟨(encode_inv cfg τ name k).nodup, (encode_inv cfg τ name k).range⟩
+
+/-- Under the explicit hypothesis that the supply gives pairwise different `(uid, counter)` pairs, the naming triples
+`(parameter name, uid, counter)` of all symbols of an encoding are pairwise different. -/
+theorem leaves_distinct_names (cfg : Cfg) (name : String) (τ : MTy) (k : Nat) (uid sid : Nat → String)
+    (hinj : ∀ i j, i ≠ j → (uid i, sid i) ≠ (uid j, sid j)) :
+    ((syms (encode cfg name τ k).1.data).map (fun id => (id.pname, uid id.idx, sid id.idx))).Nodup := by
+  apply nodup_map_of_nodup_map (·.idx) _ _ (leaves_distinct cfg name τ k).1
+  intro a b hab heq
+  simp only [Prod.mk.injEq] at heq
+  exact hinj a.idx b.idx hab (by simp [heq.2.1, heq.2.2])
+
+example : (syms (encode ⟨[], [2], [33]⟩ "" (.tuple "" [.base "a" "bytes", .darr "b" (.base "" "bool")]) 7).1.data).map (·.idx)
+    = [8, 7, 9, 10, 11] := by decide
+
+/-! ### generality -/
+
+/-- **Generality.**  For every supported type tree `τ` (with Spec type `t`), every configuration of candidate lists,
+every value `v : t` whose dynamic lengths are among the candidates of their parameter paths (`Fits`), and every
+environment that gives the symbols of the parts present in `v` their intended bytes (`Sat env (assign …)`: size symbol ↦
+length, leaf symbol ↦ word / padded payload), the Spec decoder reads `v` from the instantiated encoding.
+The head offsets were computed for the maximal candidates; this is where that is shown harmless. -/
+theorem encode_general_all (cfg : Cfg) (τ : MTy) (name : String) (k : Nat) (t : Ty) (v : Val) (env : Env)
+    (ht : toTy τ = some t) (hv : t.valid = true) (hz : noZeroFarr t = true) (hw : wt t v = true)
+    (hf : Fits cfg τ name v) (hsize : (encode cfg name τ k).1.size < 2 ^ 256)
+    (hs : Sat env (assign cfg τ name v k)) :
+    dec t (evalBytes env (encode cfg name τ k).1.data) = some v := by
+  have hg := encode_good cfg env τ name k t v ht hv hz hw hf hs
+  have hb := hg.ok.1 [] [] (by
+    simp only [List.length_nil, Nat.zero_add, Nat.add_zero]
+    rw [evalBytes_length, (encode_inv cfg τ name k).size_ok]; exact hsize)
+  simpa [dec, decOf] using hb
+
+/-- … and such an environment exists (the symbols are independent: `assign_inv`). -/
+theorem encode_general (cfg : Cfg) (τ : MTy) (name : String) (k : Nat) (t : Ty) (v : Val)
+    (ht : toTy τ = some t) (hv : t.valid = true) (hz : noZeroFarr t = true) (hw : wt t v = true)
+    (hf : Fits cfg τ name v) (hsize : (encode cfg name τ k).1.size < 2 ^ 256) :
+    ∃ env : Env, Sat env (assign cfg τ name v k) ∧ dec t (evalBytes env (encode cfg name τ k).1.data) = some v := by
+  have hs := sat_envOfAsg _ (assign_inv cfg τ name v k).2
+  exact ⟨_, hs, encode_general_all cfg τ name k t v _ ht hv hz hw hf hsize hs⟩
+
+/-- the calldata of a whole function: selector, then the encoding of the tuple of inputs -/
+theorem create_general (cfg : Cfg) (sel : Bytes) (inputs : List AbiItem) (items : List MTy) (ts : List Ty) (vs : List Val)
+    (hp : parseTupleType (fuelForList inputs + 1) "" inputs = .ok (.tuple "" items)) (hne : items ≠ [])
+    (ht : toTys items = some ts) (hv : validList ts = true) (hz : noZeroFarrs ts = true) (hw : wtList ts vs = true)
+    (hf : FitsItems cfg items "" vs) (hsize : (encode cfg "" (.tuple "" items) 0).1.size < 2 ^ 256) :
+    ∃ (env : Env) (data : List Item), create cfg sel inputs = .ok (.raw sel :: data) ∧
+      evalBytes env (.raw sel :: data) = sel ++ evalBytes env data ∧
+      dec (.tuple ts) (evalBytes env data) = some (.list vs) := by
+  obtain ⟨env, _, hd⟩ := encode_general cfg (.tuple "" items) "" 0 (.tuple ts) (.list vs)
+    (by simp [toTy, ht]) (by simpa [Ty.valid] using hv) (by simpa [noZeroFarr] using hz) (by simpa [wt] using hw)
+    (by simpa [Fits, tuplePrefix] using hf) hsize
+  refine ⟨env, (encode cfg "" (.tuple "" items) 0).1.data, ?_, rfl, hd⟩
+  unfold create
+  rw [hp]
+  cases items with
+  | nil => exact absurd rfl hne
+  | cons i r =>
+    simp only
+    have h := (encode_inv cfg (.tuple "" (i :: r)) "" 0).size_ok
+    simp [h]
+
+-- non-vacuity: a nested dynamic type, a value with non-maximal lengths
+example : ∃ env : Env,
+    dec (.tuple [.uint 8, .darr .bytes])
+      (evalBytes env (encode ⟨[("b[0]", [1, 40])], [2, 1], [0, 65]⟩ "" (.tuple "" [.base "a" "uint8", .darr "b" (.base "" "bytes")]) 0).1.data)
+      = some (.list [.uint 5, .list [.bytes [9]]]) := by
+  obtain ⟨env, _, h⟩ := encode_general ⟨[("b[0]", [1, 40])], [2, 1], [0, 65]⟩
+    (.tuple "" [.base "a" "uint8", .darr "b" (.base "" "bytes")]) "" 0 (.tuple [.uint 8, .darr .bytes])
+    (.list [.uint 5, .list [.bytes [9]]]) rfl (by decide) (by decide) (by decide)
+    (by simp [Fits, FitsItems, FitsRange, tuplePrefix, payload, isBytesLike, Cfg.sizes, idxName, List.lookup]; decide)
+    (by decide +kernel)
+  exact ⟨env, h⟩
+
+/-! ### the guard on zero-length fixed arrays is necessary -/
+
+/-- `(bytes[0] x, uint256 y)`: the specification makes `bytes[0]` a dynamic type (a 32-byte offset in the head), halmos
+emits nothing for it, so the 32-byte calldata cannot be decoded to `(x = [], y = 7)` under any environment. -/
+theorem encode_general_zero_fixed_cex :
+    ¬ (∀ (cfg : Cfg) (τ : MTy) (name : String) (k : Nat) (t : Ty) (v : Val),
+        toTy τ = some t → t.valid = true → wt t v = true → Fits cfg τ name v → (encode cfg name τ k).1.size < 2 ^ 256 →
+        ∃ env : Env, dec t (evalBytes env (encode cfg name τ k).1.data) = some v) := by
+  intro h
+  obtain ⟨env, he⟩ := h ⟨[], [1], [32]⟩ (.tuple "" [.farr "x" (.base "" "bytes") 0, .base "y" "uint256"]) "" 0
+    (.tuple [.farr .bytes 0, .uint 256]) (.list [.list [], .uint 7]) rfl (by decide) (by decide)
+    (by simp [Fits, FitsItems, FitsRange, isBytesLike]) (by decide +kernel)
+  have hd : (encode ⟨[], [1], [32]⟩ "" (.tuple "" [.farr "x" (.base "" "bytes") 0, .base "y" "uint256"]) 0).1.data
+      = [.sym ⟨"y", "uint256", 0⟩ 256] := by rfl
+  rw [hd] at he
+  have hl : (evalBytes env [.sym ⟨"y", "uint256", 0⟩ 256]).length = 32 := by
+    rw [evalBytes_length]; rfl
+  generalize evalBytes env [.sym ⟨"y", "uint256", 0⟩ 256] = buf at he hl
+  simp [dec, decAt, decs, decSeq, decRep, isDyn, readWord, hl] at he
+
+/-! ### unsupported types -/
+
+/-- `fixed…`, `ufixed…`, `function…` (any type string starting with `f` or `uf`, with any array suffixes) never parse:
+`parse_type` returns an error (`NotImplementedError` in the code; the `fuel` error cannot occur with `fuelFor`), never a type,
+hence never an encoding. -/
+theorem unsupported_rejected (fuel : Nat) (var : String) (typ : List Char) (item : AbiItem) (h : Unsupported typ) :
+    ∀ τ, parseType fuel var typ item ≠ .ok τ := parseType_unsupported fuel var typ item h
+
+example : Unsupported "fixed128x18[][3]".toList := Or.inl ⟨_, rfl⟩
+example : Unsupported "ufixed8x1".toList := Or.inr ⟨_, rfl⟩
+example : Unsupported "function[]".toList := Or.inl ⟨_, rfl⟩
+example : parseType 50 "x" "fixed128x18[][3]".toList (.mk "x" "fixed128x18[][3]" none) = .error .notSupported := by rfl
 
 end HalmosVerif.Props.C12
